@@ -86,6 +86,14 @@ class Translation(DiscreteAffine, Similarity):
         """
         self.h_matrix[:-1, -1] = p
 
+    @property
+    def composes_inplace_with(self):
+        r"""
+        :class:`Translation` can swallow composition with any other
+        :class:`Translation`.
+        """
+        return Translation
+
     def pseudoinverse(self):
         r"""
         The inverse translation (negated).
